@@ -707,7 +707,7 @@ func (m *Miner) Build(parent *Node, o BlockOpts) (b *Block, ok bool) {
 var C05Violations = []string{"high-hash", "bits-wrong", "bits-negative", "bits-zero", "bits-overflow", "time-mtp", "time-future", "version-old",
 	"cb-script-short", "cb-script-long", "bad-cb-height", "second-coinbase", "no-coinbase", "non-final-height", "non-final-time",
 	"merkle-dup", "bad-merkle", "witness-commit-wrong", "witness-missing-commit", "witness-nonce-size", "short-block", "empty-vout", "null-prevout",
-	"witness-commit-two", "weight-over", "txcount-huge", "version-old", "forged-parent", "witness-superfluous", "witness-superfluous"}
+	"witness-commit-two", "weight-over", "txcount-huge", "version-old", "forged-parent", "witness-superfluous", "witness-superfluous", "tail-cut"}
 
 // C05Boundary are mutations that keep the block VALID while sitting on a limit (MutateC05 kinds starting with "ok-").
 var C05Boundary = []string{"ok-witness-commit-two", "ok-weight-exact"}
@@ -1072,6 +1072,14 @@ func (m *Miner) MutateC05(parent *Node, b *Block, kind string, now int64) bool {
 			}
 		}
 		b.RawOverride, b.RawClause = w.Bytes(), "superfluous-witness-record"
+	case "tail-cut":
+		// the last transaction is cut short: everything before it parses
+		if len(b.Txs) < 2 {
+			return false
+		}
+		raw := b.Bytes()
+		last := len(b.Txs[len(b.Txs)-1].Bytes(true))
+		b.RawOverride = append([]byte{}, raw[:len(raw)-1-m.R.Intn(last-1)]...)
 	case "short-block":
 		b.RawOverride = b.H.Bytes()
 	case "forged-parent":
